@@ -309,3 +309,531 @@ Proof.
   rewrite step_beginvalue_nospace by reflexivity. cbn [N.eqb Pos.eqb]. rewrite lit_mode_eq.
   lit_steps. rewrite (push_value_same (JBool false) _ st) by reflexivity. rewrite Hp. reflexivity.
 Qed.
+
+(* ------------------------------------------------------------------ *)
+(* The value the decoder builds from the encoder's output               *)
+
+Definition ins_member (jn : jvalue -> jvalue) (f : list (bytes * jvalue)) (kv : bytes * jvalue) :=
+  assoc_set (utf8_fix (fst kv)) (jn (snd kv)) f.
+
+(* strings lose their invalid UTF-8 (each bad byte becomes U+FFFD), so object keys may merge
+   (last one wins); everything else is kept *)
+Fixpoint jnorm (v : jvalue) : jvalue :=
+  match v with
+  | JStr s => JStr (utf8_fix s)
+  | JArr l => JArr (map jnorm l)
+  | JObj l => JObj (fold_left (fun f kv => assoc_set (utf8_fix (fst kv)) (jnorm (snd kv)) f) l [])
+  | _ => v
+  end.
+
+Lemma jnorm_obj : forall l, jnorm (JObj l) = JObj (fold_left (ins_member jnorm) l []).
+Proof. reflexivity. Qed.
+
+(* every number is a real float64 (canonical mantissa / exponent) *)
+Inductive nums_valid : jvalue -> Prop :=
+| nv_null : nums_valid JNull
+| nv_bool : forall b, nums_valid (JBool b)
+| nv_num : forall f, valid_binary prec emax f = true -> nums_valid (JNum f)
+| nv_str : forall s, nums_valid (JStr s)
+| nv_arr : forall l, Forall nums_valid l -> nums_valid (JArr l)
+| nv_obj : forall l, Forall (fun kv => nums_valid (snd kv)) l -> nums_valid (JObj l).
+
+Lemma jdepth_arr : forall l, jdepth (JArr l) = 1 + fold_right (fun x m => N.max (jdepth x) m) 0 l.
+Proof. reflexivity. Qed.
+Lemma jdepth_obj : forall l, jdepth (JObj l) = 1 + fold_right (fun kv m => N.max (jdepth (snd kv)) m) 0 l.
+Proof. reflexivity. Qed.
+
+Section Accept.
+  (* the two facts about Num/F64's float formatting that this file needs *)
+  Hypothesis Hnum_syntax : forall x b,
+    valid_binary prec emax x = true -> format_json x = Some b -> json_number b = true.
+  Hypothesis Hnum_roundtrip : forall x b,
+    valid_binary prec emax x = true -> format_json x = Some b -> parse_float b = PFok x.
+
+  Variable ind : bool.
+
+  (* v, written by the encoder, is read back from any state that expects a value; scalars
+     anywhere, containers below the top level (the top-level container ends the scan) *)
+  Definition accepts (v : jvalue) : Prop :=
+    forall d b st p,
+      enc_gen ind d v = Some b -> nums_valid v -> begin_mode st ->
+      s_depth st + jdepth v <= max_nesting_depth ->
+      s_stack st <> [] \/ is_container v = false ->
+      push_value (jnorm v) st = Some p ->
+      exists st', run st b = Some st' /\ settled st' p.
+
+  (* a container up to its closing bracket *)
+  Definition body_ok (v : jvalue) : Prop :=
+    forall d b st,
+      enc_gen ind d v = Some b -> nums_valid v -> begin_mode st ->
+      s_depth st + jdepth v <= max_nesting_depth ->
+      exists body cl q pin,
+        b = body ++ [cl] /\ run st body = Some q /\
+        step q cl = close_container (jnorm v) (s_stack st) pin /\
+        s_depth pin = s_depth st + 1 /\ s_top pin = s_top st /\ s_rng pin = s_rng st.
+
+  Lemma accepts_of_body : forall v, is_container v = true -> body_ok v -> accepts v.
+  Proof.
+    intros v Hc Hbody d b st p He Hnv Hb Hd Hstk Hp.
+    destruct (Hbody d b st He Hnv Hb Hd) as (body & cl & q & pin & Hbb & Hr & Hs & Hdp & Htop & Hrng).
+    destruct Hstk as [Hstk|Hstk]; [|congruence].
+    exists p. split; [|apply settled_endvalue; eapply push_value_mode; eauto].
+    subst b. rewrite run_app, Hr. cbn [run]. rewrite Hs. unfold close_container.
+    destruct (s_stack st) as [|fr r] eqn:Es; [contradiction|].
+    rewrite (push_value_same (jnorm v) _ st); [rewrite Hp; reflexivity| | | |]; cbn [s_stack s_depth s_top s_rng]; auto.
+    rewrite Hdp. lia.
+  Qed.
+
+  (* ---- arrays ---- *)
+
+  Lemma open_array : forall st, begin_mode st -> s_depth st + 1 <= max_nesting_depth ->
+    step st 91 = RCont (mkS MBeginValueOrEmpty (FArr [] :: s_stack st) (s_depth st + 1) [] (s_top st) (s_rng st)).
+  Proof.
+    intros st Hb Hd. rewrite step_begin; [|exact Hb|reflexivity|discriminate].
+    rewrite step_beginvalue_nospace by reflexivity. cbn [N.eqb Pos.eqb].
+    unfold open_container. apply N.leb_le in Hd. now rewrite Hd.
+  Qed.
+
+  Lemma open_object : forall st, begin_mode st -> s_depth st + 1 <= max_nesting_depth ->
+    step st 123 = RCont (mkS MBeginStringOrEmpty (FObjKey [] :: s_stack st) (s_depth st + 1) [] (s_top st) (s_rng st)).
+  Proof.
+    intros st Hb Hd. rewrite step_begin; [|exact Hb|reflexivity|discriminate].
+    rewrite step_beginvalue_nospace by reflexivity. cbn [N.eqb Pos.eqb].
+    unfold open_container. apply N.leb_le in Hd. now rewrite Hd.
+  Qed.
+
+  (* one array element from a state that expects a value *)
+  Lemma item_accepted : forall x d a q ritems stk,
+    accepts x -> enc_gen ind d x = Some a -> nums_valid x ->
+    begin_mode q -> s_stack q = FArr ritems :: stk ->
+    s_depth q + jdepth x <= max_nesting_depth ->
+    exists st1, run q (nl ind d ++ a) = Some st1 /\
+      settled st1 (mkS MEndValue (FArr (jnorm x :: ritems) :: stk) (s_depth q) [] (s_top q) (s_rng q)).
+  Proof.
+    intros x d a q ritems stk Hacc He Hnv Hb Hstk Hd.
+    assert (Hws : ws_mode q).
+    { unfold ws_mode. destruct Hb as [[Hm|Hm] _]; rewrite Hm; exact I. }
+    destruct (Hacc d a q (mkS MEndValue (FArr (jnorm x :: ritems) :: stk) (s_depth q) [] (s_top q) (s_rng q)) He Hnv Hb Hd) as (st1 & Hr & Hs).
+    - left. rewrite Hstk. discriminate.
+    - unfold push_value. rewrite Hstk. reflexivity.
+    - exists st1. split; [|exact Hs]. rewrite run_app, (run_ws _ _ Hws (nl_space ind d)). exact Hr.
+  Qed.
+
+  Lemma arr_tail : forall l, Forall accepts l -> forall d body st' ritems stk dep top rng,
+    cat_items ind d false (map (enc_gen ind d) l) = Some body ->
+    Forall nums_valid l ->
+    dep + fold_right (fun x m => N.max (jdepth x) m) 0 l <= max_nesting_depth ->
+    settled st' (mkS MEndValue (FArr ritems :: stk) dep [] top rng) ->
+    exists st'', run st' body = Some st'' /\
+      settled st'' (mkS MEndValue (FArr (rev (map jnorm l) ++ ritems) :: stk) dep [] top rng).
+  Proof.
+    induction l as [|x r IH]; intros Hacc d body st' ritems stk dep top rng Hcat Hnv Hd Hs.
+    - cbn [map cat_items] in Hcat. inversion Hcat; subst. exists st'. split; [reflexivity|exact Hs].
+    - cbn [map cat_items] in Hcat.
+      destruct (enc_gen ind d x) as [a|] eqn:Ea; [|discriminate].
+      destruct (cat_items ind d false (map (enc_gen ind d) r)) as [body'|] eqn:Ec; [|discriminate].
+      inversion Hcat; subst body. clear Hcat.
+      inversion Hacc as [|? ? Hax Har]; subst. inversion Hnv as [|? ? Hnx Hnr]; subst.
+      cbn [fold_right] in Hd.
+      set (q := mkS MBeginValue (FArr ritems :: stk) dep [] top rng).
+      assert (Hq : step st' 44 = RCont q).
+      { rewrite (Hs 44 eq_refl). reflexivity. }
+      destruct (item_accepted x d a q ritems stk Hax Ea Hnx) as (st1 & Hr1 & Hs1).
+      + split; [left; reflexivity|reflexivity].
+      + reflexivity.
+      + cbn [s_depth q]. lia.
+      + cbn [s_depth s_top s_rng q] in Hs1.
+        destruct (IH Har d body' st1 (jnorm x :: ritems) stk dep top rng Ec Hnr) as (st2 & Hr2 & Hs2).
+        * lia.
+        * exact Hs1.
+        * exists st2. split.
+          -- cbn [app run]. rewrite Hq. rewrite app_assoc, run_app, Hr1. exact Hr2.
+          -- cbn [map rev]. rewrite <- app_assoc. exact Hs2.
+  Qed.
+
+  Lemma arr_body : forall l, Forall accepts l -> body_ok (JArr l).
+  Proof.
+    intros l Hacc d b st He Hnv Hb Hd. inversion Hnv as [| | | |? Hnl|]; subst.
+    rewrite jdepth_arr in Hd. cbn [enc_gen] in He. unfold wrap in He.
+    assert (Hopen := open_array st Hb ltac:(lia)).
+    set (q0 := mkS MBeginValueOrEmpty (FArr [] :: s_stack st) (s_depth st + 1) [] (s_top st) (s_rng st)) in *.
+    destruct l as [|x r].
+    - cbn [map] in He. inversion He; subst b.
+      exists [91], 93, q0, q0. split; [reflexivity|]. split; [cbn [run]; now rewrite Hopen|].
+      split; [reflexivity|]. repeat split; reflexivity.
+    - cbn [map] in He. cbn [cat_items] in He.
+      destruct (enc_gen ind (S d) x) as [a|] eqn:Ea; [|discriminate].
+      destruct (cat_items ind (S d) false (map (enc_gen ind (S d)) r)) as [body'|] eqn:Ec; [|discriminate].
+      inversion He; subst b. clear He.
+      inversion Hacc as [|? ? Hax Har]; subst. inversion Hnl as [|? ? Hnx Hnr]; subst.
+      cbn [fold_right] in Hd.
+      destruct (item_accepted x (S d) a q0 [] (s_stack st) Hax Ea Hnx) as (st1 & Hr1 & Hs1).
+      + split; [right; reflexivity|reflexivity].
+      + reflexivity.
+      + cbn [s_depth q0]. lia.
+      + cbn [s_depth s_top s_rng q0] in Hs1.
+        destruct (arr_tail r Har (S d) body' st1 [jnorm x] (s_stack st) (s_depth st + 1) (s_top st) (s_rng st) Ec Hnr)
+          as (st2 & Hr2 & Hs2); [lia|exact Hs1|].
+        set (p2 := mkS MEndValue (FArr (rev (map jnorm r) ++ [jnorm x]) :: s_stack st) (s_depth st + 1) [] (s_top st) (s_rng st)) in *.
+        destruct (settled_ws (nl ind d) st2 p2 Hs2 eq_refl ltac:(discriminate) (nl_space ind d)) as (q3 & Hr3 & Hs3).
+        exists (91 :: ([] ++ nl ind (S d) ++ a ++ body') ++ nl ind d), 93, q3, p2.
+        split; [cbn [app]; rewrite <- !app_assoc; reflexivity|].
+        split.
+        * cbn [app run]. rewrite Hopen. rewrite run_app.
+          rewrite app_assoc, run_app, Hr1, Hr2. exact Hr3.
+        * split; [|repeat split; reflexivity].
+          rewrite (Hs3 93 eq_refl). unfold step_endvalue. cbn [s_stack p2 is_space N.eqb Pos.eqb orb].
+          rewrite lrev_eq, rev_app_distr, rev_involutive. reflexivity.
+  Qed.
+
+  (* ---- objects ---- *)
+
+  (* one member  "key": value  from a state that expects a key *)
+  Lemma member_accepted : forall k x d a q f stk,
+    accepts x -> enc_gen ind d x = Some a -> nums_valid x ->
+    (s_mode q = MBeginString \/ s_mode q = MBeginStringOrEmpty) -> s_lit q = [] ->
+    s_stack q = FObjKey f :: stk ->
+    s_depth q + jdepth x <= max_nesting_depth ->
+    exists st1, (forall more, run q (nl ind d ++ (quote k ++ colon ind ++ a) ++ more) = run st1 more) /\
+      settled st1 (mkS MEndValue (FObjNext (ins_member jnorm f (k, x)) :: stk) (s_depth q) [] (s_top q) (s_rng q)).
+  Proof.
+    intros k x d a q f stk Hacc He Hnv Hm Hl Hstk Hd.
+    assert (Hws : ws_mode q).
+    { unfold ws_mode. destruct Hm as [Hm|Hm]; rewrite Hm; exact I. }
+    pose proof (string_key_accepted k q f stk Hm Hl Hstk) as Hk.
+    set (q2 := mkS MEndValue (FObjColon f (utf8_fix k) :: stk) (s_depth q) [] (s_top q) (s_rng q)) in *.
+    set (q3 := mkS MBeginValue (FObjVal f (utf8_fix k) :: stk) (s_depth q) [] (s_top q) (s_rng q)).
+    assert (Hcolon : run q2 (colon ind) = Some q3).
+    { unfold colon. destruct ind; reflexivity. }
+    destruct (Hacc d a q3 (mkS MEndValue (FObjNext (ins_member jnorm f (k, x)) :: stk) (s_depth q) [] (s_top q) (s_rng q))
+                   He Hnv) as (st1 & Hr & Hs).
+    - split; [left; reflexivity|reflexivity].
+    - exact Hd.
+    - left. discriminate.
+    - reflexivity.
+    - exists st1. split; [|exact Hs]. intro more.
+      rewrite (app_assoc (nl ind d) (quote k ++ colon ind ++ a) more), run_app.
+      replace (run q (nl ind d ++ quote k ++ colon ind ++ a)) with (Some st1); [reflexivity|]. symmetry.
+      eapply run_app_some; [exact (run_ws _ _ Hws (nl_space ind d))|].
+      eapply run_app_some; [exact Hk|]. eapply run_app_some; [exact Hcolon|exact Hr].
+  Qed.
+
+  Definition enc_kv (d : nat) (kv : bytes * jvalue) : option bytes :=
+    enc_member ind (fst kv) (enc_gen ind d (snd kv)).
+
+  Lemma obj_tail : forall l, Forall (fun kv => accepts (snd kv)) l -> forall d body st' f stk dep top rng,
+    cat_items ind d false (map (enc_kv d) l) = Some body ->
+    Forall (fun kv => nums_valid (snd kv)) l ->
+    dep + fold_right (fun kv m => N.max (jdepth (snd kv)) m) 0 l <= max_nesting_depth ->
+    settled st' (mkS MEndValue (FObjNext f :: stk) dep [] top rng) ->
+    exists st'', run st' body = Some st'' /\
+      settled st'' (mkS MEndValue (FObjNext (fold_left (ins_member jnorm) l f) :: stk) dep [] top rng).
+  Proof.
+    induction l as [|[k x] r IH]; intros Hacc d body st' f stk dep top rng Hcat Hnv Hd Hs.
+    - cbn [map cat_items] in Hcat. inversion Hcat; subst. exists st'. split; [reflexivity|exact Hs].
+    - cbn [map cat_items] in Hcat. unfold enc_kv at 1 in Hcat. cbn [fst snd] in Hcat.
+      destruct (enc_gen ind d x) as [a|] eqn:Ea; [|discriminate]. cbn [enc_member] in Hcat.
+      destruct (cat_items ind d false (map (enc_kv d) r)) as [body'|] eqn:Ec; [|discriminate].
+      assert (Hbody : body = 44 :: nl ind d ++ (quote k ++ colon ind ++ a) ++ body') by (inversion Hcat; reflexivity).
+      subst body. clear Hcat.
+      inversion Hacc as [|? ? Hax Har]; subst. inversion Hnv as [|? ? Hnx Hnr]; subst.
+      cbn [fold_right snd] in Hd. cbn [snd] in Hax, Hnx.
+      set (q := mkS MBeginString (FObjKey f :: stk) dep [] top rng).
+      assert (Hq : step st' 44 = RCont q).
+      { rewrite (Hs 44 eq_refl). reflexivity. }
+      destruct (member_accepted k x d a q f stk Hax Ea Hnx) as (st1 & Hr1 & Hs1).
+      + left; reflexivity.
+      + reflexivity.
+      + reflexivity.
+      + cbn [s_depth q]. lia.
+      + cbn [s_depth s_top s_rng q] in Hs1.
+        destruct (IH Har d body' st1 (ins_member jnorm f (k, x)) stk dep top rng Ec Hnr) as (st2 & Hr2 & Hs2).
+        * lia.
+        * exact Hs1.
+        * exists st2. split.
+          -- cbn [run]. rewrite Hq, Hr1. exact Hr2.
+          -- cbn [fold_left]. exact Hs2.
+  Qed.
+
+  Lemma obj_body : forall l, Forall (fun kv => accepts (snd kv)) l -> body_ok (JObj l).
+  Proof.
+    intros l Hacc d b st He Hnv Hb Hd. inversion Hnv as [| | | | |? Hnl]; subst.
+    rewrite jdepth_obj in Hd. cbn [enc_gen] in He. unfold wrap in He.
+    change (map (fun kv => enc_member ind (fst kv) (enc_gen ind (S d) (snd kv))) l)
+      with (map (enc_kv (S d)) l) in He.
+    assert (Hopen := open_object st Hb ltac:(lia)).
+    set (q0 := mkS MBeginStringOrEmpty (FObjKey [] :: s_stack st) (s_depth st + 1) [] (s_top st) (s_rng st)) in *.
+    destruct l as [|[k x] r].
+    - cbn [map] in He. inversion He; subst b.
+      exists [123], 125, q0, q0. split; [reflexivity|]. split; [cbn [run]; now rewrite Hopen|].
+      split; [reflexivity|]. repeat split; reflexivity.
+    - cbn [map] in He. cbn [cat_items] in He. unfold enc_kv at 1 in He. cbn [fst snd] in He.
+      destruct (enc_gen ind (S d) x) as [a|] eqn:Ea; [|discriminate]. cbn [enc_member] in He.
+      destruct (cat_items ind (S d) false (map (enc_kv (S d)) r)) as [body'|] eqn:Ec; [|discriminate].
+      assert (Hbb : b = 123 :: (nl ind (S d) ++ (quote k ++ colon ind ++ a) ++ body') ++ nl ind d ++ [125])
+        by (inversion He; reflexivity).
+      subst b. clear He.
+      inversion Hacc as [|? ? Hax Har]; subst. inversion Hnl as [|? ? Hnx Hnr]; subst.
+      cbn [fold_right snd] in Hd. cbn [snd] in Hax, Hnx.
+      destruct (member_accepted k x (S d) a q0 [] (s_stack st) Hax Ea Hnx) as (st1 & Hr1 & Hs1).
+      + right; reflexivity.
+      + reflexivity.
+      + reflexivity.
+      + cbn [s_depth q0]. lia.
+      + cbn [s_depth s_top s_rng q0] in Hs1.
+        destruct (obj_tail r Har (S d) body' st1 (ins_member jnorm [] (k, x)) (s_stack st) (s_depth st + 1) (s_top st) (s_rng st) Ec Hnr)
+          as (st2 & Hr2 & Hs2); [lia|exact Hs1|].
+        set (p2 := mkS MEndValue (FObjNext (fold_left (ins_member jnorm) r (ins_member jnorm [] (k, x))) :: s_stack st)
+                       (s_depth st + 1) [] (s_top st) (s_rng st)) in *.
+        destruct (settled_ws (nl ind d) st2 p2 Hs2 eq_refl ltac:(discriminate) (nl_space ind d)) as (q3 & Hr3 & Hs3).
+        exists (123 :: (nl ind (S d) ++ (quote k ++ colon ind ++ a) ++ body') ++ nl ind d), 125, q3, p2.
+        split; [cbn [app]; now rewrite <- (app_assoc _ (nl ind d) [125])|].
+        split.
+        * cbn [run]. rewrite Hopen. rewrite <- app_assoc, <- app_assoc, Hr1, run_app, Hr2. exact Hr3.
+        * split; [|repeat split; reflexivity].
+          rewrite (Hs3 125 eq_refl). reflexivity.
+  Qed.
+
+  (* ---- every value ---- *)
+
+  Lemma scalar_stack : forall v st p, push_value v st = Some p ->
+    s_mode p = MEndValue.
+  Proof. intros. eapply push_value_mode; eauto. Qed.
+
+  Theorem accepts_all : forall v, accepts v.
+  Proof.
+    induction v as [|bv|f|s|l IH|l IH] using jvalue_ind'.
+    - intros d b st p He _ Hb _ _ Hp. cbn [enc_gen] in He. inversion He; subst b.
+      exists p. split; [now apply null_accepted|]. apply settled_endvalue. eapply push_value_mode; eauto.
+    - intros d b st p He _ Hb _ _ Hp. cbn [enc_gen] in He.
+      exists p. split; [|apply settled_endvalue; eapply push_value_mode; eauto].
+      destruct bv; inversion He; subst b; [now apply true_accepted|now apply false_accepted].
+    - intros d b st p He Hnv Hb _ _ Hp. cbn [enc_gen] in He. inversion Hnv; subst.
+      eapply number_accepted; eauto.
+    - intros d b st p He _ Hb _ _ Hp. cbn [enc_gen] in He. inversion He; subst b.
+      exists p. split; [now apply string_value_accepted|]. apply settled_endvalue. eapply push_value_mode; eauto.
+    - apply accepts_of_body; [reflexivity|]. now apply arr_body.
+    - apply accepts_of_body; [reflexivity|]. now apply obj_body.
+  Qed.
+
+  Lemma body_ok_container : forall v, is_container v = true -> body_ok v.
+  Proof.
+    intros [| | | |l|l] Hc; try discriminate.
+    - apply arr_body. apply Forall_forall. intros x _. apply accepts_all.
+    - apply obj_body. apply Forall_forall. intros x _. apply accepts_all.
+  Qed.
+
+  (* the complete encoding of v, from the start state, alone in the input *)
+  Theorem enc_decodes : forall v b,
+    enc_gen ind 0 v = Some b -> nums_valid v -> jdepth v <= max_nesting_depth ->
+    decode_next b = DValue (jnorm v) [].
+  Proof.
+    intros v b He Hnv Hd.
+    assert (Hb : begin_mode s_init) by (split; [left; reflexivity|reflexivity]).
+    destruct (is_container v) eqn:Hc.
+    - destruct (body_ok_container v Hc 0%nat b s_init He Hnv Hb) as (body & cl & q & pin & Hbb & Hr & Hs & _ & _ & Hrng).
+      { cbn [s_depth s_init]. lia. }
+      unfold decode_next. subst b. rewrite (scan_run _ _ _ _ Hr), scan_cons, Hs.
+      cbn [s_stack s_init close_container scan_res]. rewrite Hrng. reflexivity.
+    - destruct (accepts_all v 0%nat b s_init (mkS MEndValue [] 0 [] (Some (jnorm v)) false) He Hnv Hb)
+        as (st' & Hr & Hs).
+      { cbn [s_depth s_init]. lia. }
+      { now right. }
+      { reflexivity. }
+      unfold decode_next. apply scan_more_run in Hr. rewrite Hr. unfold at_eof.
+      rewrite (Hs 32 eq_refl). reflexivity.
+  Qed.
+End Accept.
+
+(* ------------------------------------------------------------------ *)
+(* When the decoder gives back exactly the value                        *)
+
+Definition key_lt (a b : bytes * jvalue) : Prop := bytes_cmp (fst a) (fst b) = Lt.
+
+(* object keys strictly ascending in byte order (hence unique), recursively *)
+Inductive wf_jvalue : jvalue -> Prop :=
+| wf_null : wf_jvalue JNull
+| wf_bool : forall b, wf_jvalue (JBool b)
+| wf_num : forall f, wf_jvalue (JNum f)
+| wf_str : forall s, wf_jvalue (JStr s)
+| wf_arr : forall l, Forall wf_jvalue l -> wf_jvalue (JArr l)
+| wf_obj : forall l, StronglySorted key_lt l -> Forall (fun kv => wf_jvalue (snd kv)) l -> wf_jvalue (JObj l).
+
+(* every string and every key is valid UTF-8 *)
+Inductive valid_utf8_strings : jvalue -> Prop :=
+| vs_null : valid_utf8_strings JNull
+| vs_bool : forall b, valid_utf8_strings (JBool b)
+| vs_num : forall f, valid_utf8_strings (JNum f)
+| vs_str : forall s, valid_utf8 s -> valid_utf8_strings (JStr s)
+| vs_arr : forall l, Forall valid_utf8_strings l -> valid_utf8_strings (JArr l)
+| vs_obj : forall l, Forall (fun kv => valid_utf8 (fst kv) /\ valid_utf8_strings (snd kv)) l ->
+                     valid_utf8_strings (JObj l).
+
+(* numbers: finite real float64 values.  (A value that marshals has only finite numbers.) *)
+Definition finite_numbers (v : jvalue) : Prop := nums_valid v.
+
+Lemma bytes_cmp_antisym : forall a b, bytes_cmp a b = CompOpp (bytes_cmp b a).
+Proof.
+  induction a as [|x a IH]; destruct b as [|y b]; cbn [bytes_cmp CompOpp]; try reflexivity.
+  rewrite (N.compare_antisym y x). destruct (y ?= x); cbn [CompOpp]; auto.
+Qed.
+
+Lemma assoc_set_append : forall (k : bytes) (v : jvalue) f,
+  Forall (fun kv => bytes_cmp (fst kv) k = Lt) f -> assoc_set k v f = f ++ [(k, v)].
+Proof.
+  induction f as [|[k' v'] r IH]; intro H; cbn [assoc_set app]; [reflexivity|].
+  inversion H as [|? ? Hk Hr]; subst. cbn [fst] in Hk.
+  rewrite bytes_cmp_antisym, Hk. cbn [CompOpp]. now rewrite IH.
+Qed.
+
+Lemma fold_ins_sorted : forall l f,
+  StronglySorted key_lt l ->
+  (forall a b, In a f -> In b l -> key_lt a b) ->
+  Forall (fun kv => utf8_fix (fst kv) = fst kv /\ jnorm (snd kv) = snd kv) l ->
+  fold_left (ins_member jnorm) l f = f ++ l.
+Proof.
+  induction l as [|[k x] r IH]; intros f Hs Hlt Hid; cbn [fold_left]; [now rewrite app_nil_r|].
+  inversion Hs as [|? ? Hsr Hkr]; subst. inversion Hid as [|? ? [Hk Hx] Hidr]; subst.
+  cbn [fst snd] in Hk, Hx.
+  assert (Hins : ins_member jnorm f (k, x) = f ++ [(k, x)]).
+  { unfold ins_member. cbn [fst snd]. rewrite Hk, Hx. apply assoc_set_append.
+    apply Forall_forall. intros a Ha. exact (Hlt a (k, x) Ha (or_introl eq_refl)). }
+  rewrite Hins, IH; [now rewrite <- app_assoc| exact Hsr | | exact Hidr].
+  intros a b Ha Hb. apply in_app_or in Ha. destruct Ha as [Ha|[Ha|[]]].
+  - apply Hlt; [exact Ha|now right].
+  - subst a. rewrite Forall_forall in Hkr. now apply Hkr.
+Qed.
+
+Lemma jnorm_id : forall v, wf_jvalue v -> valid_utf8_strings v -> jnorm v = v.
+Proof.
+  induction v as [|bv|f|s|l IH|l IH] using jvalue_ind'; intros Hwf Hvs; try reflexivity.
+  - inversion Hvs; subst. cbn [jnorm]. rewrite utf8_fix_valid by assumption. reflexivity.
+  - inversion Hwf as [| | | |? Hl|]; subst. inversion Hvs as [| | | |? Hl2|]; subst.
+    cbn [jnorm]. f_equal. induction l as [|x r IHr]; [reflexivity|].
+    inversion IH; inversion Hl; inversion Hl2; subst. cbn [map]. f_equal; auto.
+  - inversion Hwf as [| | | | |? Hs Hl]; subst. inversion Hvs as [| | | | |? Hl2]; subst.
+    rewrite jnorm_obj. f_equal. rewrite fold_ins_sorted; [reflexivity|exact Hs|intros a b []|].
+    clear Hs. induction l as [|[k x] r IHr]; [constructor|].
+    inversion IH; inversion Hl; inversion Hl2 as [|? ? [Hk Hx] ?]; subst. constructor; [|auto].
+    cbn [fst snd] in *. split; [now apply utf8_fix_valid|auto].
+Qed.
+
+(* equality of values with numbers compared by F64.f_same *)
+Fixpoint jeq (a b : jvalue) : bool :=
+  match a, b with
+  | JNull, JNull => true
+  | JBool x, JBool y => Bool.eqb x y
+  | JNum x, JNum y => f_same x y
+  | JStr x, JStr y => bytes_eqb x y
+  | JArr x, JArr y =>
+      (fix go (x y : list jvalue) : bool :=
+         match x, y with
+         | [], [] => true
+         | a :: x', b :: y' => jeq a b && go x' y'
+         | _, _ => false
+         end) x y
+  | JObj x, JObj y =>
+      (fix go (x y : list (bytes * jvalue)) : bool :=
+         match x, y with
+         | [], [] => true
+         | (k, a) :: x', (k', b) :: y' => bytes_eqb k k' && jeq a b && go x' y'
+         | _, _ => false
+         end) x y
+  | _, _ => false
+  end.
+
+Lemma f_same_refl : forall x, f_same x x = true.
+Proof.
+  intros [s|s| |s m e]; cbn [f_same]; try reflexivity; try apply Bool.eqb_reflx.
+  now rewrite Bool.eqb_reflx, Pos.eqb_refl, Z.eqb_refl.
+Qed.
+
+Lemma jeq_refl : forall v, jeq v v = true.
+Proof.
+  induction v as [|bv|f|s|l IH|l IH] using jvalue_ind'; cbn [jeq]; try reflexivity.
+  - apply Bool.eqb_reflx.
+  - apply f_same_refl.
+  - apply bytes_eqb_refl.
+  - induction IH as [|x r Hx Hr IHr]; [reflexivity|]. now rewrite Hx, IHr.
+  - induction IH as [|[k x] r Hx Hr IHr]; [reflexivity|]. cbn [snd] in Hx. now rewrite bytes_eqb_refl, Hx, IHr.
+Qed.
+
+(* ------------------------------------------------------------------ *)
+(* The theorems                                                         *)
+
+Section Theorems.
+  (* Facts about Num/F64's float formatting, to be discharged in Num/F64Proofs.v: the text
+     format_json produces for a real float64 is a JSON number literal, and parse_float
+     reads it back as the same float64. *)
+  Hypothesis Hnum_syntax : forall x b,
+    valid_binary prec emax x = true -> format_json x = Some b -> json_number b = true.
+  Hypothesis Hnum_roundtrip : forall x b,
+    valid_binary prec emax x = true -> format_json x = Some b -> parse_float b = PFok x.
+
+  Lemma marshal_indent_inv : forall v b, marshal_indent v = Some b ->
+    enc_gen true 0 v = Some b /\ jdepth v <= max_nesting_depth.
+  Proof.
+    intros v b H. unfold marshal_indent in H. destruct (jdepth v <=? max_nesting_depth) eqn:E; [|discriminate].
+    split; [exact H|now apply N.leb_le].
+  Qed.
+
+  (* 1. what MarshalIndent writes is always one complete JSON value for the decoder, with
+        nothing left over; the value read is jnorm v *)
+  Theorem marshal_indent_decodes : forall v b, finite_numbers v -> marshal_indent v = Some b ->
+    decode_next b = DValue (jnorm v) [].
+  Proof.
+    intros v b Hn H. destruct (marshal_indent_inv v b H) as [He Hd].
+    exact (enc_decodes Hnum_syntax Hnum_roundtrip true v b He Hn Hd).
+  Qed.
+
+  Theorem marshal_never_malformed : forall v b, finite_numbers v -> marshal_indent v = Some b ->
+    exists v', decode_next b = DValue v' [].
+  Proof. intros v b Hn H. exists (jnorm v). now apply marshal_indent_decodes. Qed.
+
+  (* the same for json.Marshal; it has no depth limit of its own, the decoder has *)
+  Theorem marshal_compact_decodes : forall v b, finite_numbers v -> jdepth v <= max_nesting_depth ->
+    marshal_compact v = Some b -> decode_next b = DValue (jnorm v) [].
+  Proof.
+    intros v b Hn Hd H. exact (enc_decodes Hnum_syntax Hnum_roundtrip false v b H Hn Hd).
+  Qed.
+
+  (* 2. round trip *)
+  Theorem marshal_compact_roundtrip : forall v b,
+    wf_jvalue v -> finite_numbers v -> valid_utf8_strings v -> jdepth v <= max_nesting_depth ->
+    marshal_compact v = Some b -> decode_next b = DValue v [].
+  Proof.
+    intros v b Hwf Hn Hvs Hd H. rewrite (marshal_compact_decodes v b Hn Hd H). now rewrite jnorm_id.
+  Qed.
+
+  Theorem marshal_roundtrip_eq : forall v b,
+    wf_jvalue v -> finite_numbers v -> valid_utf8_strings v ->
+    marshal_indent v = Some b -> decode_next b = DValue v [].
+  Proof.
+    intros v b Hwf Hn Hvs H. rewrite (marshal_indent_decodes v b Hn H). now rewrite jnorm_id.
+  Qed.
+
+  Theorem marshal_roundtrip : forall v b,
+    wf_jvalue v -> finite_numbers v -> valid_utf8_strings v ->
+    marshal_indent v = Some b ->
+    exists v', decode_next b = DValue v' [] /\ jeq v v' = true.
+  Proof.
+    intros v b Hwf Hn Hvs H. exists v. split; [now apply marshal_roundtrip_eq|apply jeq_refl].
+  Qed.
+End Theorems.
+
+Print Assumptions marshal_never_malformed.
+Print Assumptions marshal_indent_decodes.
+Print Assumptions marshal_compact_decodes.
+Print Assumptions marshal_compact_roundtrip.
+Print Assumptions marshal_roundtrip_eq.
+Print Assumptions marshal_roundtrip.
+Print Assumptions string_escape_roundtrip.
+Print Assumptions unquote_quote.
+Print Assumptions decode_next_consumes.
+Print Assumptions decode_prefix_stable.
+Print Assumptions decode_container_stable.
+Print Assumptions dec_step_decode_next.
+Print Assumptions chunking_independent.
+Print Assumptions chunking_independent_readers.
+Print Assumptions reads_minimal.
+Print Assumptions buffered_container_no_read.
